@@ -1,6 +1,7 @@
 package main
 
 import (
+	"go/types"
 	"context"
 	"encoding/json"
 	"flag"
@@ -117,6 +118,34 @@ func cmdProp(args []string) {
 			}
 		}
 	}
+	// type invariants: every method of a type that declares invariants for this property is verified to preserve them,
+	// whether or not it has a contract of its own (a method added later is covered the day it appears)
+	invOnly := map[string]bool{}
+	inKeys := map[string]bool{}
+	for _, k := range keys {
+		inKeys[k] = true
+	}
+	for k, fn := range e.funcs {
+		if inKeys[k] || fn.Signature.Recv() == nil || len(fn.Params) == 0 || fn.Synthetic != "" || len(fn.Blocks) == 0 {
+			continue
+		}
+		t := fn.Params[0].Type()
+		if pt, ok := t.Underlying().(*types.Pointer); ok {
+			t = pt.Elem()
+		}
+		tc := e.cs.Types[typeKey(t)]
+		if tc == nil || len(tc.Invs) == 0 {
+			continue
+		}
+		for _, li := range tc.Invs {
+			if len(li.C.Props) == 0 || hasProp(li.C.Props, *id) {
+				invOnly[k] = true
+			}
+		}
+		if invOnly[k] {
+			keys = append(keys, k)
+		}
+	}
 	sort.Strings(keys)
 	scratch, _ := os.MkdirTemp("", "goverif-"+*id)
 	defer os.RemoveAll(scratch)
@@ -133,7 +162,7 @@ func cmdProp(args []string) {
 			engineErrs = append(engineErrs, "contract for unknown function "+k)
 			continue
 		}
-		if fc != nil && fc.Trusted && *id != "C09" {
+		if fc != nil && fc.Trusted && *id != "C09" && !invOnly[k] {
 			trusted["trusted contract (body not verified): "+shortTypeKey(k)] = true
 			continue
 		}
@@ -156,6 +185,12 @@ func cmdProp(args []string) {
 		}
 		var mine []*Obligation
 		for _, ob := range x.obs {
+			if invOnly[k] {
+				if ob.Kind == "inv" && (len(ob.Props) == 0 || hasProp(ob.Props, *id)) {
+					mine = append(mine, ob)
+				}
+				continue
+			}
 			if *id == "C09" {
 				// only the synchronisation obligations (and the vacuity probes) belong to C09
 				if hasProp(ob.Props, "C09") || ob.Kind == "lock" || (ob.Cover && strings.HasSuffix(ob.Name, "requires_sat")) {
